@@ -101,3 +101,10 @@ let () =
         "{\"r\":\"ok\",\"out\":" ^ jtext w.out ^ ",\"line\":" ^ jnat w.line ^ ",\"entries\":"
         ^ jlist (fun ((o, l), c) -> "[" ^ string_of_z o ^ "," ^ jnat l ^ "," ^ jnat c ^ "]") w.entries ^ "}"
     | _ -> raise (Bad "writer"))
+
+(* C01: the premises of the back-end theorem on a captured compilation: (backend_ok FIN_OUT_POPS RESULT_PROGRAM) *)
+let () =
+  register "backend_ok" (function
+    | L [ _; fin; p ] ->
+        "{\"r\":\"ok\",\"backend_ok\":" ^ (if backend_ok (as_pops fin) (as_program p) then "true" else "false") ^ "}"
+    | _ -> raise (Bad "backend_ok"))
